@@ -322,7 +322,8 @@ impl ConsumeUnverifiedBlockProcessor {
             &epoch.last_block_hash_in_previous_epoch(),
         )?;
         if new_epoch {
-            db_txn.insert_epoch_ext(&epoch.last_block_hash_in_previous_epoch(), &epoch)?;
+            // the block may stay on a side chain: the epoch-number index is written on attach
+            db_txn.insert_epoch_ext_record(&epoch.last_block_hash_in_previous_epoch(), &epoch)?;
         }
 
         let in_ibd = self.shared.is_initial_block_download();
